@@ -900,7 +900,7 @@ class Twist3(SMTwist):
 
         if base.isscalar(theta):
             # theta is a scalar
-            return SE3(base.trexp(self.S * theta))
+            return SE3([base.trexp(S * theta) for S in self.data])
         else:
             # theta is a vector
             if len(self) == 1:
@@ -1369,7 +1369,7 @@ class Twist2(SMTwist):
             theta = base.getunit(theta, units)
 
         if base.isscalar(theta):
-            return SE2(base.trexp2(self.S * theta))
+            return SE2([base.trexp2(S * theta) for S in self.data])
         else:
             return SE2([base.trexp2(self.S * t) for t in theta])
 
